@@ -2154,6 +2154,9 @@ impl UnionDecoder {
             .iter_mut()
             .map(|d| d.flush(None))
             .collect::<Result<Vec<_>, _>>()?;
+        // The child builders were drained above, so the dense offsets of the next
+        // batch start from zero again.
+        self.branches.counts.fill(0);
         let arr = UnionArray::try_new(
             self.fields.clone(),
             flush_values(&mut self.branches.type_ids)
